@@ -20,8 +20,8 @@ pub enum Outcome {
     NotComparable,
 }
 
-const SYMS: [&str; 18] = [
-    "|", "||", "&&", "==", "<", ">=", ".", "!", "[0]", "[*]", "[]", "[?x]", ".*", "[1:]", "[::-1]", ".f(@)", ".[y]", ".{k:y}",
+const SYMS: [&str; 21] = [
+    "!=", ">", "<=", "|", "||", "&&", "==", "<", ">=", ".", "!", "[0]", "[*]", "[]", "[?x]", ".*", "[1:]", "[::-1]", ".f(@)", ".[y]", ".{k:y}",
 ];
 const OPERANDS: [&str; 8] = ["a", "b", "c", "d", "e", "g", "h", "i"];
 
@@ -52,7 +52,7 @@ pub fn soup_with(seq: &[usize], rot: Option<usize>) -> String {
         let sym = SYMS[k];
         match sym {
             "!" => pending += 1,
-            "|" | "||" | "&&" | "==" | "<" | ">=" => {
+            "|" | "||" | "&&" | "==" | "<" | ">=" | "!=" | ">" | "<=" => {
                 body.push(' ');
                 body.push_str(sym);
                 body.push(' ');
